@@ -118,7 +118,7 @@ func runContinuation(w *kit.World, s strategy, rng *rand.Rand, rounds int) (bool
 		}
 		for _, h := range w.Honest {
 			for n := w.Project(h); !n.Decided && n.Round <= curMax; n = w.Project(h) {
-				if err := w.Timeout(h, specqbft.Round(n.Round)); err != nil {
+				if err := w.TimeoutArmed(h); err != nil {
 					break
 				}
 				if w.Project(h).Round == n.Round {
